@@ -35,12 +35,14 @@ EXTRA = {
  "isIntKind": ["//@ ensures [C05] def: result == isIntK(rvKind(v))"],
  "isNum": ["//@ ensures [C06] def: result == (isIntK(rvKind(v)) || isUintK(rvKind(v)) || rvKind(v) == reflect.Uintptr || isFloatK(rvKind(v)))"],
  "precedenceOfKinds": ["//@ ensures [C05] def: result == precK(kind1, kind2)"],
- "tryToInt64": ["//@ ensures [C05] int: isIntK(rvKind(deref1(v))) ==> result.0 == rvInt(deref1(v)) && result.1 == nil",
+ "tryToInt64": ["//@ ensures [C06] decstr: rvKind(deref1(v)) == reflect.String && decStr(rvStr(deref1(v))) ==> ((result.1 == nil) == parseIntOK(rvStr(deref1(v)), 10, 64)) && (result.1 == nil ==> result.0 == parseIntVal(rvStr(deref1(v)), 10, 64))",
+                "//@ ensures [C05] int: isIntK(rvKind(deref1(v))) ==> result.0 == rvInt(deref1(v)) && result.1 == nil",
                 "//@ ensures [C05] float: isFloatK(rvKind(deref1(v))) ==> result.0 == f2i(rvFloat(deref1(v))) && result.1 == nil"],
  "tryToInt": ["//@ ensures [C10] int: isIntK(rvKind(deref1(v))) ==> result.0 == rvInt(deref1(v)) && result.1 == nil"],
  "toInt64": ["//@ ensures [C05] int: isIntK(rvKind(deref1(v))) ==> result == rvInt(deref1(v))",
              "//@ ensures [C05] float: isFloatK(rvKind(deref1(v))) ==> result == f2i(rvFloat(deref1(v)))"],
- "tryToFloat64": ["//@ ensures [C05] float: isFloatK(rvKind(deref1(v))) ==> same(result.0, rvFloat(deref1(v))) && result.1 == nil",
+ "tryToFloat64": ["//@ ensures [C06] str: rvKind(deref1(v)) == reflect.String ==> ((result.1 == nil) == parseFloatOK(rvStr(deref1(v)), 64)) && (result.1 == nil ==> same(result.0, parseFloatVal(rvStr(deref1(v)), 64)))",
+                  "//@ ensures [C05] float: isFloatK(rvKind(deref1(v))) ==> same(result.0, rvFloat(deref1(v))) && result.1 == nil",
                   "//@ ensures [C05] int: isIntK(rvKind(deref1(v))) ==> same(result.0, i2f(rvInt(deref1(v)))) && result.1 == nil"],
  "toFloat64": ["//@ ensures [C05] float: isFloatK(rvKind(deref1(v))) ==> same(result, rvFloat(deref1(v)))",
                "//@ ensures [C05] int: isIntK(rvKind(deref1(v))) ==> same(result, i2f(rvInt(deref1(v))))"],
@@ -116,6 +118,15 @@ EXTRA = {
    '// reflect.Type.FieldByName reports',
    '//@ ensures [C11 C20] field: ncalls() == 1 && res(0) == nil && !typeis(rvIface(unwrap(res2(0))), "*env.Env") && !rvValid(rvMethodNamed(unwrap(res2(0)), expr.Name)) && rvKind(memberRecv(res2(0))) == reflect.Struct && typeHasField(rvTypeOf(memberRecv(res2(0))), expr.Name) ==> runInfo.err == nil && runInfo.rv == rvFieldPath(memberRecv(res2(0)), typeFieldIndex(rvTypeOf(memberRecv(res2(0))), expr.Name))',
    '//@ ensures [C11 C20] method: ncalls() == 1 && res(0) == nil && !typeis(rvIface(unwrap(res2(0))), "*env.Env") && rvValid(rvMethodNamed(unwrap(res2(0)), expr.Name)) ==> runInfo.err == nil && runInfo.rv == rvMethodNamed(unwrap(res2(0)), expr.Name)'],
+ "invokeLetMemberExpr": ['// C10/C11: x.f = v on a struct value (directly, behind an interface, or through one pointer): an unknown field is an error; a field',
+   '// that cannot be set is an error; otherwise v is converted to the field\'s declared type (an inconvertible value is an error that leaves',
+   '// the old content) and exactly that converted value is stored into exactly the field at the index path FieldByName reports;',
+   '// no store happens on any error path',
+   '//@ traces convertReflectValueToType (reflect.Value).Set',
+   '//@ ensures [C10 C11] target: ncalls() >= 1 && calleeIs(0, "invokeExpr") && arg(0) == expr.Expr',
+   '//@ ensures [C10 C11] nofield: ncalls() >= 1 && res(0) == nil && !typeis(rvIface(unwrap(res2(0))), "*env.Env") && rvKind(memberRecv(res2(0))) == reflect.Struct && !typeHasField(rvTypeOf(memberRecv(res2(0))), expr.Name) ==> runInfo.err != nil && ncalls() == 1',
+   '//@ ensures [C10 C11] fieldstore: runInfo.err == nil && ncalls() >= 1 && !typeis(rvIface(unwrap(res2(0))), "*env.Env") && rvKind(memberRecv(res2(0))) == reflect.Struct ==> ncalls() == 3 && calleeIs(1, "convertReflectValueToType") && arg(1) == old(runInfo.rv) && res(1) == nil && res3(1) == rvTypeOf(rvFieldPath(memberRecv(res2(0)), typeFieldIndex(rvTypeOf(memberRecv(res2(0))), expr.Name))) && calleeIs(2, "(reflect.Value).Set") && arg(2) == rvFieldPath(memberRecv(res2(0)), typeFieldIndex(rvTypeOf(memberRecv(res2(0))), expr.Name)) && res(2) == res2(1)',
+   '//@ ensures [C10 C11] untouched: runInfo.err != nil ==> (forall k int :: 0 <= k && k < ncalls() ==> !calleeIs(k, "(reflect.Value).Set"))'],
  "invokeSliceExpr": ['// C10: x[lo:hi] on a slice is Go\'s x[lo:hi]: the window lo..hi of the SAME storage with the capacity of x from lo on',
    '// (reflect.Slice3(lo, hi, cap(x))); x[lo:hi:max] is reflect.Slice3(lo, hi, max); a missing bound is 0 / len(x)',
    '//@ traces (reflect.Value).Slice3',
@@ -127,6 +138,20 @@ EXTRA = {
    '//@ ensures [C10] two: runInfo.err == nil && expr.Cap == nil && rvKind(unwrap(res2(0))) == reflect.Slice ==> ncalls() >= 2 && calleeIs(ncalls()-1, "(reflect.Value).Slice3") && arg(ncalls()-1) == unwrap(res2(0)) && res3(ncalls()-1) == rvCap(unwrap(res2(0)))'],
  "invokeItemExpr": [
    '//@ ensures [C07] order: ncalls() >= 1 && ncalls() <= 2 && calleeIs(0, "invokeExpr") && arg(0) == expr.Item && (ncalls() == 2 ==> res(0) == nil && calleeIs(1, "invokeExpr") && arg(1) == expr.Index) && (runInfo.err == nil ==> ncalls() == 2)'],
+ "invokeImportExpr": ['// C14/C19: import gives the importing environment ITS OWN copy of the package\'s symbol table: a fresh child scope of the current',
+   '// one in which every entry of the package table is defined under its name with its value (nothing skipped, nothing else',
+   '// written); the shared table itself is only read',
+   '//@ callsite (*Env).DefineValue * [C14] ownenv: fresh(arg0) && arg0.parent == old(runInfo.env) && arg0 == pack && has(methods, arg1) && arg2 == methods[arg1]',
+   '//@ loop 0 invariant [C14 C19] own: fresh(pack) && pack.parent == old(runInfo.env)',
+   '//@ loop 0 invariant [C14 C19] ownmap: pack.values == nil || (fresh(pack.values) && pack.values != methods)',
+   '//@ loop 0 invariant [C14] tablekept: forall k string :: has(methods, k) ==> rangekeys(0, k)',
+   '//@ loop 0 invariant [C14 C19] copied: forall k string :: visited(0, k) ==> has(pack.values, k) && pack.values[k] == methods[k]',
+   '//@ loop 1 invariant [C14 C19] own: fresh(pack) && pack.parent == old(runInfo.env)',
+   '//@ loop 1 invariant [C14 C19] ownmap: pack.values == nil || (fresh(pack.values) && pack.values != methods)',
+   '//@ loop 1 invariant [C14 C19] owntypes: pack.types == nil || (fresh(pack.types) && pack.types != methods && pack.types != pack.values)',
+   '//@ loop 1 invariant [C14 C19] kept: forall k string :: has(methods, k) ==> has(pack.values, k) && pack.values[k] == methods[k]',
+   '// (stated where the result is boxed - a clause over the locals pack / methods cannot be exported to callers)',
+   '//@ callsite reflect.ValueOf * [C14 C19] imported: callarg0 == iface(pack, "*env.Env") && fresh(pack) && pack.parent == old(runInfo.env) && (forall k string :: has(methods, k) ==> has(pack.values, k) && pack.values[k] == methods[k])'],
  "invokeLenExpr": ['//@ ensures [C07] once: ncalls() == 1 && arg(0) == expr.Expr',
    '// C10/C19/C20: len(x) is Go\'s len of what x DENOTES (a value read from an interface-typed element or result included):',
    '// an int64 for arrays, channels, maps, slices and strings, an error for everything else',
@@ -227,7 +252,15 @@ EXTRA = {
    '// C06: containers compare structurally: two slices (or two maps) are equal exactly when reflect.DeepEqual says so for',
    '// what the two operands hold - no shortcut through identity of storage',
    '//@ ensures [C06] containers: !nilV(lhsV) && !nilV(rhsV) && rvKind(eqD(lhsV)) == rvKind(eqD(rhsV)) && (rvKind(eqD(lhsV)) == reflect.Slice || rvKind(eqD(lhsV)) == reflect.Map) ==> result == deepEqS(rvIface(eqD(lhsV)), rvIface(eqD(rhsV)))', '//@ ensures [C06] nil: (nilV(lhsV) || nilV(rhsV)) ==> result == (nilV(lhsV) && nilV(rhsV))',
-           '//@ ensures [C06] core: !nilV(lhsV) && !nilV(rhsV) && corePair(eqD(lhsV), eqD(rhsV)) ==> result == eqV(lhsV, rhsV)'],
+           '//@ ensures [C06] core: !nilV(lhsV) && !nilV(rhsV) && corePair(eqD(lhsV), eqD(rhsV)) ==> result == eqV(lhsV, rhsV)',
+           '// C06: a string and a number are equal exactly when the string is a decimal numeral denoting that number - decided in the integer',
+           '// domain when the numeral is an integer (exact over the whole int64 range, in BOTH operand orders), in float64 otherwise',
+           '//@ ensures [C06] numstrint: !nilV(lhsV) && !nilV(rhsV) && rvKind(eqD(lhsV)) == reflect.Int64 && rvKind(eqD(rhsV)) == reflect.String && decStr(rvStr(eqD(rhsV))) && parseIntOK(rvStr(eqD(rhsV)), 10, 64) ==> result == (rvInt(eqD(lhsV)) == parseIntVal(rvStr(eqD(rhsV)), 10, 64))',
+           '//@ ensures [C06] numstrfloat: !nilV(lhsV) && !nilV(rhsV) && (rvKind(eqD(lhsV)) == reflect.Int64 || rvKind(eqD(lhsV)) == reflect.Float64) && rvKind(eqD(rhsV)) == reflect.String && decStr(rvStr(eqD(rhsV))) && !parseIntOK(rvStr(eqD(rhsV)), 10, 64) && parseFloatOK(rvStr(eqD(rhsV)), 64) ==> result == feq(asF(eqD(lhsV)), parseFloatVal(rvStr(eqD(rhsV)), 64))',
+           '//@ ensures [C06] numstrnone: !nilV(lhsV) && !nilV(rhsV) && (rvKind(eqD(lhsV)) == reflect.Int64 || rvKind(eqD(lhsV)) == reflect.Float64) && rvKind(eqD(rhsV)) == reflect.String && decStr(rvStr(eqD(rhsV))) && !parseIntOK(rvStr(eqD(rhsV)), 10, 64) && !parseFloatOK(rvStr(eqD(rhsV)), 64) ==> !result',
+           '//@ ensures [C06] strnumint: !nilV(lhsV) && !nilV(rhsV) && rvKind(eqD(rhsV)) == reflect.Int64 && rvKind(eqD(lhsV)) == reflect.String && decStr(rvStr(eqD(lhsV))) && parseIntOK(rvStr(eqD(lhsV)), 10, 64) ==> result == (rvInt(eqD(rhsV)) == parseIntVal(rvStr(eqD(lhsV)), 10, 64))',
+           '//@ ensures [C06] strnumfloat: !nilV(lhsV) && !nilV(rhsV) && (rvKind(eqD(rhsV)) == reflect.Int64 || rvKind(eqD(rhsV)) == reflect.Float64) && rvKind(eqD(lhsV)) == reflect.String && decStr(rvStr(eqD(lhsV))) && !parseIntOK(rvStr(eqD(lhsV)), 10, 64) && parseFloatOK(rvStr(eqD(lhsV)), 64) ==> result == feq(asF(eqD(rhsV)), parseFloatVal(rvStr(eqD(lhsV)), 64))',
+           '//@ ensures [C06] strnumnone: !nilV(lhsV) && !nilV(rhsV) && (rvKind(eqD(rhsV)) == reflect.Int64 || rvKind(eqD(rhsV)) == reflect.Float64) && rvKind(eqD(lhsV)) == reflect.String && decStr(rvStr(eqD(lhsV))) && !parseIntOK(rvStr(eqD(lhsV)), 10, 64) && !parseFloatOK(rvStr(eqD(lhsV)), 64) ==> !result'],
  "isNil": ['//@ ensures [C06] def: result == nilV(v)'],
  "tryToBool": ['// truthyV is DEFINED as the first result of tryToBool (a function of the value); the truthiness table is below',
                '//@ free_ensures [C08] def: result.0 == truthyV(v)','//@ ensures [C06 C08] bool: rvKind(deref1(v)) == reflect.Bool ==> result.0 == rvBool(deref1(v)) && result.1 == nil'],
